@@ -25,7 +25,7 @@ from prompt_toolkit.utils import take_using_weights
 
 ID = "C12"
 DRIVER = "drv_c12"
-PROPS = ["Ptk.Props.C12", "Ptk.Props.C12Gen", "Ptk.Props.C12Loop", "Ptk.Props.C12Grow"]
+PROPS = ["Ptk.Props.C12", "Ptk.Props.C12Orig", "Ptk.Props.C12Gen", "Ptk.Props.C12Loop", "Ptk.Props.C12Grow"]
 LEVEL_TEXT = ("Lean 4 theorems over an executable model of Dimension, take_using_weights (explicit stream state "
               "machine, integer cross-multiplication), _child_generators/_grow_sizes and the two divide functions: "
               "termination for every list of valid dimensions incl. weight 0, too-small iff the minimums do not fit, "
@@ -60,8 +60,8 @@ PARTIAL_SCOPE = ["the drawing of each child inside its region (Window.write_to_s
                  "region handed to it", "nested splits are covered through sum/max_layout_dimensions only",
                  "VSplit.write_to_screen cross-axis height = write_position.height (modelled as such)"]
 
-TIME_LIMIT = 1.0     # CPU seconds (ITIMER_VIRTUAL: a busy loop burns CPU, a descheduled process does not)
-CONFIRM_LIMIT = 3.0  # a first time-out is confirmed once with a longer limit before it counts as a hang
+TIME_LIMIT = 0.5     # CPU seconds (ITIMER_VIRTUAL: a busy loop burns CPU, a descheduled process does not)
+CONFIRM_LIMIT = 2.0  # a first time-out is confirmed once with a longer limit before it counts as a hang
 
 
 class Hang(BaseException):
@@ -73,6 +73,12 @@ def _on_alarm(*_a):
 
 
 _hangs = 0
+
+
+def hang_established():
+    """Two confirmed hangs in this process: the tree is failing (both were reported by the oracle);
+    the remaining cases are skipped instead of burning a time-out each."""
+    return _hangs >= 2
 
 
 def _run_limited(f, limit):
@@ -96,8 +102,6 @@ def _run_limited(f, limit):
 def guarded(f):
     """run f() under a CPU-time watchdog; returns ('ok', value) | ('hang', None) | ('exc', name)"""
     global _hangs
-    if _hangs >= 2:  # hanging is established on this tree: do not burn the budget
-        return _run_limited(f, 0.02)
     r = _run_limited(f, TIME_LIMIT)
     if r[0] == "hang":
         r = _run_limited(f, CONFIRM_LIMIT)
@@ -178,6 +182,11 @@ def req_tokens(case):
             + "".join(" " + spec_tokens(s) for s in case["children"]))
 
 
+def all_positive(case):
+    """no child and no padding window has weight 0 (None = default weight 1)"""
+    return all(s[2] != 0 for s in case["children"] + [pad_spec(case["pad"])])
+
+
 def model_lines(case):
     k = case["kind"]
     if k == "dim":
@@ -195,6 +204,10 @@ def model_lines(case):
     out = []
     for a in case["avails"]:
         out.append(f"div {case['dir']} {case['align']} {case['done']} {a} {req_tokens(case)}")
+    if all_positive(case):
+        # the pre-fix algorithm (Ptk.Model.C12Orig) must agree with the real code on positive weights
+        for a in case["avails"]:
+            out.append(f"odiv {case['dir']} {case['align']} {case['done']} {a} {req_tokens(case)}")
     if case.get("wp"):
         x, y, w, h = case["wp"]
         out.append(f"lay {case['dir']} {case['align']} {case['done']} {x} {y} {w} {h} {req_tokens(case)}")
@@ -234,6 +247,8 @@ def draw(split, case):
 
 def impl_lines(case):
     k = case["kind"]
+    if hang_established() and k != "dim":
+        return ["skipped: non-termination already established in this run"]
     if k == "dim":
         out = []
         ds = []
@@ -272,6 +287,8 @@ def impl_lines(case):
             r = ("hang", None) if hung else guarded(lambda: real_divide(split, case, a))
             hung = hung or r[0] == "hang"
             out.append(enc_res(r))
+        if all_positive(case):
+            out += out[:len(case["avails"])]
         if case.get("wp"):
             r, vis = (("hang", None), None) if hung else draw(split, case)
             if r[0] != "ok":
@@ -395,6 +412,8 @@ def check_layout(name, split, case, vis):
 def oracle(case):
     k = case["kind"]
     v = []
+    if hang_established() and k != "dim":
+        return v
     if k == "dim":
         for s in case["specs"]:
             try:
